@@ -333,11 +333,30 @@ def emit_mapped(F, kinds=KINDS, names=False):
         for n in walk(body):
             if n.get("k") in ("Call",) and (n.get("fres") or {}).get("variant") == "Functions" and "Elements" in ((n.get("fres") or {}).get("adt") or ""):
                 n_sinks += 1
-                # its argument derives from a local defined by mapping over func_mapping
+                # its argument derives from a local; every value that local is given — on every branch of the assigning
+                # expression — must be produced by a lookup in the function map (`.get`, not merely `contains_key`)
                 ok = False
-                for st in walk(body):
-                    if st.get("k") == "Assign" and "func" in mapping_lookups(st["rhs"], maps):
-                        ok = True
+                src_hids = {x["res"]["hid"] for a_ in n["args"] for x in walk(a_) if x.get("k") == "Path" and x.get("res", {}).get("r") == "local"}
+
+                def leaves(e):
+                    e = peel(e)
+                    if e.get("k") == "If":
+                        return leaves(e["then"]) + (leaves(e["else"]) if "else" in e else [None])
+                    if e.get("k") == "Match" and e.get("src") not in ("ForLoopDesugar", "TryDesugar"):
+                        out_ = []
+                        for a2 in e["arms"]:
+                            if a2["body"].get("ty") != "!":
+                                out_ += leaves(a2["body"])
+                        return out_
+                    if e.get("k") == "Block" and e.get("expr") is not None:
+                        return leaves(e["expr"])
+                    return [e]
+
+                assigns = [st for st in walk(body) if st.get("k") == "Assign" and peel(st["lhs"]).get("res", {}).get("hid") in src_hids]
+                if assigns:
+                    ok = all(lf is not None and "func" in mapping_lookups(lf, maps) for st in assigns for lf in leaves(st["rhs"]))
+                else:
+                    ok = any("func" in mapping_lookups(a_, maps) for a_ in n["args"])
                 r.ob(ok, {"sink": "element function list", "mapped": ok})
                 if not ok:
                     r.violate("%s | elements" % fn["path"], F.loc(fn, n), "element segment function indices are emitted without the function map")
@@ -568,6 +587,17 @@ def section_order(F):
     r.ob(ok, {"emitted_order": names})
     if not ok:
         r.violate("%s | order" % fn["path"], F.loc(fn), "sections are emitted in the order %s; the binary format requires %s" % (names, SECTION_ORDER))
+    # lowering may add types (exit wrapper block type) and locals (branch flags): it has to be complete before the first
+    # section is emitted, unconditionally
+    res = [c for c in walk(fn["body"]) if c.get("k") == "MethodCall" and c["method"] == "resolve_special_instrumentation"]
+    if len(res) != 1:
+        raise CheckError("encode_internal: expected one call of resolve_special_instrumentation, found %d" % len(res))
+    if seq:
+        ok2, why = uncond_before(fn["body"], res[0], seq[0][1])
+        r.ob(ok2, {"lowering_before_first_section": ok2})
+        if not ok2:
+            r.violate("%s | lowering after sections" % fn["path"], F.loc(fn, res[0]),
+                      "resolve_special_instrumentation %s the first emitted section: types and locals it adds are missing from sections already written (the first encoding differs from the second, and may be invalid)" % why)
     return r
 
 
@@ -775,24 +805,33 @@ ACCUM = ("push", "extend", "append", "insert", "push_str", "extend_from_slice", 
 RESET = ("clear", "truncate", "drain", "take")
 
 
-def loop_scratch(F, roots=("encode_internal", "encode_comp")):
-    """A scratch buffer that lives across iterations of an emission loop (declared outside the loop), is filled inside
-    the loop and is also *consumed inside the same loop* (its contents are handed to a section builder per iteration)
-    must be emptied in every iteration before it is filled — otherwise iteration n emits the items of iterations 1..n."""
+def loop_scratch(F, roots=None):
+    """A scratch buffer that lives across iterations of a loop (declared outside it), is *filled* inside the loop (push/
+    extend/…, or handed to a callee as `&mut buf`) and is also *consumed whole* inside the same loop (passed as `&buf`,
+    `buf.as_slice()`, `Cow::from(&buf)` … to a call) must be emptied in every iteration before it is filled — otherwise
+    iteration n hands over the items of iterations 1..n.  Buffers the loop also pops/removes from (stacks, work lists) and
+    accumulators that are only read element-wise or after the loop are exempt."""
     r = RuleResult("R-LOOP-SCRATCH",
-                   "in the emission loops of the encoders, a buffer declared outside a loop, filled inside it and read inside it (per-iteration scratch) is reset (clear/truncate/reassign) on every iteration before its first fill; accumulators only read after the loop are exempt")
+                   "a buffer declared outside a loop, filled inside it and handed over whole inside it (per-iteration scratch) is reset (clear/truncate/reassign/take) on every iteration before its first fill; stacks and accumulators read after the loop are exempt")
     n_scratch = 0
     n_loops = 0
+    ELEMENT = ("get", "get_mut", "len", "is_empty", "last", "last_mut", "first", "contains", "contains_key", "iter_mut", "capacity", "reserve")
+    MANAGED = ("pop", "remove", "swap_remove", "pop_front", "pop_back", "retain")
     for fn in F.fns:
-        if fn.get("body") is None or not (fn["name"] in roots or any(fn["path"].find("::%s::" % x) >= 0 for x in roots)):
+        if fn.get("body") is None or (fn.get("impl_trait") or "").startswith(("std::", "core::")):
             continue
-        r.analysed.append(fn["path"])
+        if roots and fn["name"] not in roots:
+            continue
         lets = {}
         for st in walk(fn["body"]):
             if st.get("k") == "Let" and st["pat"].get("k") == "Binding":
                 lets[st["pat"]["hid"]] = st
+        touched = False
         for m in walk(fn["body"]):
             if not (m.get("k") == "Match" and m.get("src") == "ForLoopDesugar"):
+                continue
+            # the outer desugaring match: `match into_iter(..) { mut iter => loop {..} }`
+            if not any(x.get("k") == "Loop" for x in walk(m["arms"][0]["body"])):
                 continue
             n_loops += 1
             loop_body = m["arms"][0]["body"]
@@ -805,26 +844,45 @@ def loop_scratch(F, roots=("encode_internal", "encode_comp")):
                         h = rv["res"]["hid"]
                         if h in lets and h not in inner_lets:
                             fills.setdefault(h, []).append(c)
-            for c in walk(loop_body):
-                if c.get("k") == "Assign":
-                    l = peel(c["lhs"])
-                    # `buf = iter.collect()` is itself a reset+fill: nothing to check for it
-                    if l.get("k") == "Path" and l.get("res", {}).get("hid") in fills:
-                        pass
+                if c.get("k") in ("Call", "MethodCall"):
+                    for a_ in c.get("args", []):
+                        if a_.get("k") == "AddrOf" and a_.get("mut"):
+                            rv = peel(a_["a"])
+                            if rv.get("k") == "Path" and rv.get("res", {}).get("r") == "local":
+                                h = rv["res"]["hid"]
+                                if h in lets and h not in inner_lets:
+                                    fills.setdefault(h, []).append(c)
             for h, fl in fills.items():
                 name = lets[h]["pat"]["name"]
-                # all occurrences of the local inside the loop
-                occ = [x for x in walk(loop_body) if x.get("k") == "Path" and x.get("res", {}).get("hid") == h]
-                mut_recv = set()
+                bty = lets[h]["pat"].get("ty") or ""
+                if not any(t in bty for t in ("Vec<", "NameMap", "String", "HashMap<", "HashSet<", "VecDeque<", "BTreeMap<", "BTreeSet<")):
+                    continue  # not a container (e.g. a stateless re-encoder passed as &mut)
+                managed = False
+                whole_reads = []
                 for c in walk(loop_body):
-                    if c.get("k") == "MethodCall" and c["method"] in ACCUM + RESET + ("reserve", "len", "is_empty", "capacity"):
+                    if c.get("k") == "MethodCall":
                         rv = peel(c["recv"])
-                        if rv.get("k") == "Path" and rv.get("res", {}).get("hid") == h:
-                            mut_recv.add(id(rv))
-                reads = [x for x in occ if id(x) not in mut_recv and not _is_assign_target(loop_body, x)]
-                if not reads:
-                    continue  # accumulator: only filled here, consumed after the loop
+                        if rv.get("k") == "Path" and rv.get("res", {}).get("hid") == h and c["method"] in MANAGED:
+                            managed = True
+                    if c.get("k") in ("Call", "MethodCall"):
+                        for a_ in c.get("args", []):
+                            if a_.get("k") == "AddrOf" and a_.get("mut"):
+                                continue
+                            for x in walk(a_):
+                                if x.get("k") == "Path" and x.get("res", {}).get("hid") == h:
+                                    # element-wise reads inside the argument (buf.len(), buf[i]) do not hand the buffer over
+                                    par = None
+                                    for y in walk(a_):
+                                        if y.get("k") == "MethodCall" and peel(y["recv"]) is x and y["method"] in ELEMENT + ACCUM:
+                                            par = y
+                                        if y.get("k") == "Index" and peel(y["base"]) is x:
+                                            par = y
+                                    if par is None:
+                                        whole_reads.append(c)
+                if managed or not whole_reads:
+                    continue
                 n_scratch += 1
+                touched = True
                 resets = []
                 for c in walk(loop_body):
                     if c.get("k") == "MethodCall" and c["method"] in RESET:
@@ -837,10 +895,12 @@ def loop_scratch(F, roots=("encode_internal", "encode_comp")):
                             resets.append(c)
                 first_fill = min(fl, key=lambda x: (x["sp"][0], x["sp"][1]))
                 ok = any(uncond_before(loop_body, rs_, first_fill)[0] for rs_ in resets)
-                r.ob(ok, {"fn": fn["path"], "buffer": name, "filled_and_read_in_loop": True, "reset_each_iteration": ok})
+                r.ob(ok, {"fn": fn["path"], "buffer": name, "filled_and_handed_over_in_loop": True, "reset_each_iteration": ok})
                 if not ok:
                     r.violate("%s | scratch %s" % (fn["path"], name), F.loc(fn, first_fill),
-                              "buffer `%s` is declared outside the loop, filled and consumed inside it, but not emptied at the top of every iteration: the items of earlier iterations are emitted again with each later one" % name)
+                              "buffer `%s` is declared outside the loop, filled and handed over inside it, but not emptied at the top of every iteration: the items of earlier iterations are handed over again with each later one" % name)
+        if touched:
+            r.analysed.append(fn["path"])
     r.count("loops", n_loops)
     r.count("scratch_buffers", n_scratch)
     return r
@@ -960,7 +1020,8 @@ def full_iter(F):
             # only judge the outermost call of a chain once
             n_chains += 1
             m = c["method"]
-            over_ir = "ir::" in (c.get("ty") or "") or "wasmparser::Operator" in (c.get("ty") or "")
+            tys = (c.get("ty") or "") + " " + (c.get("recv_ty") or "")
+            over_ir = "ir::" in tys or "wasmparser::Operator" in tys
             if not over_ir:
                 continue
             if m in TRUNC:
@@ -974,13 +1035,70 @@ def full_iter(F):
                 r.ob(False, {"fn": fn["path"], "chain": ".".join(chain)})
                 r.violate("%s | %s" % (fn["path"], ".".join(chain)), F.loc(fn, c),
                           "iterator chain `.%s()` truncates or reorders a walk over IR state: elements outside the window are silently not visited/emitted/reported" % ".".join(chain))
-            if m == "enumerate":
+            if m in ("enumerate", "position", "rposition"):
                 before = chain[:-1]
                 bad = [a for a in before if a in FILTERS]
                 if bad:
                     r.ob(False, {"fn": fn["path"], "chain": ".".join(chain)})
                     r.violate("%s | %s" % (fn["path"], ".".join(chain)), F.loc(fn, c),
-                              "enumerate() is applied after `%s`: its index counts only the surviving elements, not positions in the collection (ids/indices derived from it shift as soon as one element is filtered out)" % bad[0])
+                              "%s() is applied after `%s`: its index counts only the surviving elements, not positions in the collection (ids/indices derived from it shift as soon as one element is filtered out)" % (m, bad[0]))
     r.ob(True, {"iterator_adaptor_calls_scanned": n_chains})
     r.count("iterator_calls_scanned", n_chains)
+    return r
+
+
+# ---------------------------------------------------------------- R-ENCODE-WRITES
+ENC_MUT = ("push", "insert", "remove", "clear", "retain", "extend", "append", "truncate", "pop", "drain", "sort", "dedup", "swap", "take", "replace",
+           "get_or_insert_with", "or_insert", "push_str", "sort_by", "sort_unstable", "dedup_by_key", "swap_remove", "split_off", "fill", "reverse",
+           "last_mut", "iter_mut", "get_mut", "first_mut", "values_mut", "entry", "set_id", "set_kind")
+
+
+def encode_writes(F):
+    """Encoding must leave the IR in a state from which the same bytes are produced again.  Every pattern of IR-state
+    mutation reachable from encode_internal is therefore a reviewed row of tables/encode_writes.json with its idempotence
+    class; a mutation pattern that is not in the table (a new field written, a list folded in place, a flag set for 'next
+    time') is reported."""
+    import json
+    from vlib.report import VERIF
+    r = RuleResult("R-ENCODE-WRITES",
+                   "every ADT-field mutation pattern in the call graph of Module::encode_internal is a reviewed row of tables/encode_writes.json (remap / lower / append-once / scratch / access); no other IR state is written while encoding")
+    rows = json.load(open(os.path.join(VERIF, "tables", "encode_writes.json")))["rows"]
+    fn = enc_fn(F)
+    g = mirutil.build_callgraph(F)
+    seen, parent = mirutil.reachable_fns(F, [fn["path"]], g)
+
+    def base(t):
+        return re.sub(r"<.*", "", (t or "").replace("&mut ", "").replace("&", "")).split("::")[-1]
+
+    pats = {}
+    for p in sorted(seen):
+        f = F.by_path[p][0]
+        if f.get("body") is None:
+            continue
+        for n in walk(f["body"]):
+            key = None
+            if n.get("k") in ("Assign", "AssignOp"):
+                l = n["lhs"]
+                while isinstance(l, dict) and l.get("k") in ("Unary", "Index", "AddrOf"):
+                    l = l.get("a") or l.get("base")
+                if isinstance(l, dict) and l.get("k") == "Field":
+                    key = "%s.%s =" % (base(l.get("base_ty")), l["name"])
+            elif n.get("k") == "MethodCall" and (n["method"] in ENC_MUT or n["method"].startswith(("sort", "dedup", "retain", "drain", "extend", "swap", "split_off", "rotate", "resize", "truncate"))):
+                l = peel(n["recv"])
+                while isinstance(l, dict) and l.get("k") in ("Unary", "Index", "AddrOf"):
+                    l = l.get("a") or l.get("base")
+                if isinstance(l, dict) and l.get("k") == "Field":
+                    key = "%s.%s.%s()" % (base(l.get("base_ty")), l["name"], n["method"])
+            if key:
+                pats.setdefault(key, (f, n))
+    r.analysed += sorted(seen)[:30]
+    r.count("encode_reachable_fns", len(seen))
+    r.count("write_patterns", len(pats))
+    for key, (f, n) in sorted(pats.items()):
+        ok = key in rows
+        r.ob(ok, {"pattern": key, "class": rows.get(key, {}).get("class")})
+        if not ok:
+            r.violate("%s | unreviewed write %s" % (fn["path"], key), F.loc(f, n),
+                      "`%s` (in %s, reachable from encode_internal via %s) mutates IR state while encoding and is not a reviewed idempotent pattern: a second encode() starts from different state and can produce different bytes" % (
+                          key, f["path"], " → ".join(x.split("::")[-1] for x in mirutil.call_path(parent, f["path"])[-4:])))
     return r
